@@ -478,6 +478,44 @@ theorem hist_wrap_reconstruct (P : Params K) (ops : List (Op K)) (c0 : CSys K) (
   rw [e1, e2]
   exact ⟨r1, r4⟩
 
+theorem runC_snoc (P : Params K) (ops : List (Op K)) (c : CSys K) (op : Op K) :
+    (runC P c (ops ++ [op])).1 = (stepC P (runC P c ops).1 op).1 := by
+  induction ops generalizing c with
+  | nil => rfl
+  | cons o os ih => simp only [List.cons_append, runC]; exact ih _
+
+/-- **hist_wrap_pbc_edited**: the periodicity setting edited IN PLACE (`system.pbc[k] = False`, no setter runs) at any
+    point of any history — whatever the setting was when the object was created or last assigned — is what the next
+    `wrap` follows: the edit itself touches neither the box nor the positions, and the wrap then moves no atom along
+    direction `k` (image flag 0) while its flags still reconstruct the positions held before it.  (That the atoms end
+    up inside the enlarged cell is `hist_wrap_inside` for the history `ops ++ [editPbc k false]`.) -/
+theorem hist_wrap_pbc_edited (P : Params K) (ops : List (Op K)) (c0 : CSys K) (h0 : Coherent c0) (k : Nat)
+    (hdet : M3.det (runC P c0 ops).1.box.vects ≠ 0) :
+    let c := (runC P c0 (ops ++ [.editPbc k false])).1
+    let w := c.wrapC P
+    c.box = (runC P c0 ops).1.box ∧ c.pos = (runC P c0 ops).1.pos ∧
+    c.pbc = setAxis (runC P c0 ops).1.pbc k false ∧
+    List.zipWith (fun p' f => p' + latticeVec c.box.vects f) w.2.pos w.1 = c.pos ∧
+    ∀ f ∈ w.1, (k = 0 → f.x = 0) ∧ (k = 1 → f.y = 0) ∧ (k = 2 → f.z = 0) := by
+  intro c w
+  have hc : c = { (runC P c0 ops).1 with pbc := setAxis (runC P c0 ops).1.pbc k false } := by
+    show (runC P c0 (ops ++ [.editPbc k false])).1 = _
+    rw [runC_snoc]; rfl
+  have hb : c.box = (runC P c0 ops).1.box := by rw [hc]
+  have hdet' : M3.det (runC P c0 (ops ++ [.editPbc k false])).1.box.vects ≠ 0 := by
+    show M3.det c.box.vects ≠ 0
+    rw [hb]; exact hdet
+  obtain ⟨r1, r2⟩ := hist_wrap_reconstruct P (ops ++ [.editPbc k false]) c0 h0 hdet'
+  have hp : c.pbc = setAxis (runC P c0 ops).1.pbc k false := by rw [hc]
+  refine ⟨hb, by rw [hc], hp, r1, ?_⟩
+  intro f hf
+  obtain ⟨fx, fy, fz⟩ := r2 f hf
+  have px : c.pbc = setAxis (runC P c0 ops).1.pbc k false := hp
+  refine ⟨?_, ?_, ?_⟩
+  · intro hk; subst hk; apply fx; show c.pbc.x = false; rw [px]; rfl
+  · intro hk; subst hk; apply fy; show c.pbc.y = false; rw [px]; rfl
+  · intro hk; subst hk; apply fz; show c.pbc.z = false; rw [px]; rfl
+
 /-- **hist_wrap_inside**: a `wrap` issued at any point of any history leaves every atom inside the cell the
     object then has — unless the clean-up of the `vects` setter removes a component of the lengthened cell
     (`hclean`; it never does for a fully periodic system whose cell is already clean). -/
@@ -656,6 +694,41 @@ theorem normalize_lengths_angles (fl : K → Int) (pad : K) (sqrt arccos : K →
     obtain ⟨d02, d12⟩ := hneg h
     simp only [cosAlpha, cosBeta, lenA, lenB, lenC, n0, n1, n2, d02, d12, neg_div, and_self]
 
+/-- **normalize_never_refuses**: a non-singular cell — however strongly tilted (a lattice angle a fraction of a degree
+    from 0 or 180), of either handedness, in any orientation — is never refused by `normalize`: neither the angle check
+    of `set_abc` (`ValueError('lattice angles must be between 0 and 180 degrees')`) nor the `lx, ly, lz > 0` assertion
+    of `set_lengths` fires, for every periodicity setting and every list of positions.  (`SqrtOK` is what is assumed of
+    `x**0.5` at the five arguments met; it holds at `ℝ` for every non-singular cell: `sqrtOK_real`.) -/
+theorem normalize_never_refuses (fl : K → Int) (pad : K) (sqrt : K → K) (b : Box K) (hdet : M3.det b.vects ≠ 0)
+    (hs : SqrtOK sqrt (flip b).vects) (pbc : V3 Bool) (pos : List (V3 K)) :
+    angleGuard sqrt (flip b).vects = true ∧
+    ∃ r, normalize? fl pad sqrt b pbc pos = some r ∧ normalizeG? fl pad sqrt b pbc pos = some r := by
+  have hd : M3.det (flip b).vects ≠ 0 := ne_of_gt (flip_det_pos b hdet)
+  have hg := angleGuard_of_det_ne_zero sqrt (flip b).vects hd hs.a hs.b hs.c
+  obtain ⟨b2, h2, _⟩ := abcBox_spec sqrt (flip b).vects hs
+  refine ⟨hg, _, normalize_eq fl pad sqrt b pbc pos b2 h2, ?_⟩
+  simp only [normalizeG?, hg, if_true]
+  exact normalize_eq fl pad sqrt b pbc pos b2 h2
+
+/-- **angleGuard_refuses_parallel**: the refusal is not vacuous — a cell two of whose vectors are parallel (the angle
+    between them is exactly 0 or 180 degrees) is refused by the angle check, whatever the third vector is. -/
+theorem angleGuard_refuses_parallel (sqrt : K → K) (v : M3 K)
+    (ha : SqrtAt sqrt (V3.normSq v.r0)) (hb : SqrtAt sqrt (V3.normSq v.r1)) (hc : SqrtAt sqrt (V3.normSq v.r2))
+    (hpar : V3.normSq (V3.cross v.r1 v.r2) = 0 ∨ V3.normSq (V3.cross v.r0 v.r2) = 0 ∨
+      V3.normSq (V3.cross v.r0 v.r1) = 0) :
+    angleGuard sqrt v = false := by
+  by_contra hcon
+  have ht : angleGuard sqrt v = true := by simpa using hcon
+  simp only [angleGuard, Bool.and_eq_true, cosAlpha, cosBeta, cosGamma, lenA, lenB, lenC] at ht
+  obtain ⟨⟨g1, g2⟩, g3⟩ := ht
+  have p1 := cross_pos_of_cos_strict sqrt v.r1 v.r2 hb hc g1
+  have p2 := cross_pos_of_cos_strict sqrt v.r0 v.r2 ha hc g2
+  have p3 := cross_pos_of_cos_strict sqrt v.r0 v.r1 ha hb g3
+  rcases hpar with h | h | h
+  · rw [h] at p1; exact lt_irrefl _ p1
+  · rw [h] at p2; exact lt_irrefl _ p2
+  · rw [h] at p3; exact lt_irrefl _ p3
+
 /-- **boxSet_scale_spec**: `box_set(…, scale=True)` holds the relative coordinates fixed (the same list with respect to
     the new box as with respect to the old one, whenever the new cell — after the clean-up of the setter — is
     non-singular); `box_set(…, scale=False)` holds the Cartesian positions fixed. Either way the box is the one asked
@@ -702,6 +775,8 @@ example : M3.det exBox.vects = -60 := by decide +kernel
 example : SqrtOK sqrtQ (flip exBox).vects := by
   refine ⟨⟨?_, ?_⟩, ⟨?_, ?_⟩, ⟨?_, ?_⟩, ⟨?_, ?_⟩, ⟨?_, ?_⟩⟩ <;> decide +kernel
 example : (normalize? Rat.floor (1/1000) sqrtQ exBox ⟨true, true, true⟩ exPos).isSome = true := by decide +kernel
+example : (normalizeG? Rat.floor (1/1000) sqrtQ exBox ⟨true, false, true⟩ exPos).isSome = true := by decide +kernel
+example : angleGuard sqrtQ (⟨⟨3, 0, 0⟩, ⟨-4, 0, 0⟩, ⟨0, 0, 5⟩⟩ : M3 ℚ) = false := by decide +kernel
 example : (wrap Rat.floor (1/1000) exBox ⟨true, false, true⟩ exPos).flags = [⟨0, 0, 0⟩, ⟨1, 0, 2⟩, ⟨0, 0, 0⟩] := by
   decide +kernel
 
@@ -721,6 +796,9 @@ example : let c := (runC exPar exSys exHist).1
       = (wrap exPar.fl exPar.pad c.box c.pbc c.pos).box.vects := by decide +kernel
 /-- … and fails where a component is below `tiny` of the largest one: the setter does remove it. -/
 example : zeroSmall exPar.tiny ⟨⟨4, 0, 0⟩, ⟨1/1000000000, 4, 0⟩, ⟨0, 0, 4⟩⟩ = (⟨⟨4, 0, 0⟩, ⟨0, 4, 0⟩, ⟨0, 0, 4⟩⟩ : M3 ℚ) := by
+  decide +kernel
+example : (runC exPar exSys (exHist ++ [.editPbc 2 false])).1.pbc = ⟨true, false, false⟩ := by decide +kernel
+example : ((runC exPar exSys [.editPbc 2 false]).1.wrapC exPar).1 = [⟨0, 0, 0⟩, ⟨1, -2, 0⟩, ⟨0, 0, 0⟩] := by
   decide +kernel
 example : Clean exPar.tiny exSys := by unfold Clean; decide +kernel
 example : (0 : ℚ) ≤ exPar.tiny ∧ exPar.tiny < 1 := by decide +kernel
